@@ -81,7 +81,11 @@ def qeNum : Num QE where
   neg a := ⟨-a.q, a.rep⟩
   mul a b := QE.mk' (a.q * b.q) (a.rep && b.rep)
   div a b := QE.mk' (a.q / b.q) (a.rep && b.rep)
-  powNat a n := QE.mk' (ratPowNat a.q n) a.rep
+  powNat a n :=
+    -- astronomically large exact powers are not computed: the value is marked "not representable"
+    -- (only representable values are ever compared exactly)
+    if (a.q.num.natAbs.log2 + a.q.den.log2 + 2) * n > 2000000 then ⟨0, false⟩
+    else QE.mk' (ratPowNat a.q n) a.rep
   rpow x y :=
     if y.q == 0 then pure ⟨1, x.rep && y.rep⟩
     else if x.q == eRat then throw .unsupported        -- `math.e ** y` is libm's exp, never exact
